@@ -208,11 +208,16 @@ def touch_lookups(net):
         _ = (list(net.in_links(n)), list(net.out_links(n)))
 
 
-def build(spec: NetSpec, names=None, order=None, override=None, netname="net", touch=False) -> Built:
+def build(spec: NetSpec, names=None, order=None, override=None, netname="net", touch=False, subclass=False) -> Built:
     """Issues the real construction calls.  `order` is a list of calls:
     ('nodes',) add_nodes(all); ('node', i); ('link', i); ('links', (i, j, ..)) bulk;
     ('origin', node); ('dest', node); ('path', (link indices forming a chain), with_origin, with_dest)."""
     obj = make_elements(spec, names, override)
+    if subclass:
+        # every element becomes an instance of a trivial user-defined subclass of its library class
+        from .graphmodel import as_user_subclass
+        for o in obj.values():
+            as_user_subclass(o)
     net = M.Network(name=netname)
     for call in (order or default_order(spec)):
         k = call[0]
